@@ -13,7 +13,7 @@ FAULT_DIMENSION = "scheduler crash + rerun / JSON round trip; adversarial noise 
 ASSUMPTIONS = ["station voltages are taken from the scenario, not from the network object",
                "battery charge is read from the battery object's stored charge attribute (observation only)"]
 
-P_CUSTOM = world.profile(zero_demand=0.05, second_life=0.15, faults={"crash": 0.4, "mutate": 0.4}, resume_modes=["rerun", "rerun", "json_str"], noise=0.4, heterovolt=0.8,
+P_CUSTOM = world.profile(zero_demand=0.05, second_life=0.15, faults={"crash": 0.4, "mutate": 0.4, "invalid_pilot": 0.08}, resume_modes=["rerun", "rerun", "json_str"], noise=0.4, heterovolt=0.8,
                          evse_kinds={"cont": 4, "dead": 2, "finite": 3, "cont_inf": 1, "cont_neg": 1},
                          party={"scripted": 5, "uncontrolled": 2, "greedy": 2, "rr": 1})
 P_STOCH = world.profile(net="stochastic", stations=(1, 4), faults={"crash": 0.3}, resume_modes=["rerun"], noise=0.3,
